@@ -11,6 +11,7 @@ import (
 	"dsim/core"
 	"dsim/simdisk"
 
+	"github.com/diskfs/go-diskfs/backend"
 	"github.com/diskfs/go-diskfs/filesystem"
 	"github.com/diskfs/go-diskfs/filesystem/ext4"
 	"github.com/diskfs/go-diskfs/filesystem/iso9660"
@@ -80,7 +81,7 @@ type builtImage struct {
 	Kind        string
 	D           *simdisk.Disk
 	Start, Size int64
-	Open        func(d *simdisk.Disk) (filesystem.FileSystem, error)
+	Open        func(b backend.Storage) (filesystem.FileSystem, error)
 	// PathOf maps a tree path to the form the filesystem's calls expect
 	PathOf func(p string) string
 	// NameOf maps a tree path to the name under which the image stores it (ISO plain mode mangles names)
@@ -158,7 +159,7 @@ func buildImage(kind string, tree []imgEntry, start int64, opt map[string]int64)
 			f.Close()
 		}
 		bi.D, bi.Size = d, size
-		bi.Open = func(d *simdisk.Disk) (filesystem.FileSystem, error) { return fatRead(d, ft, size, start, 512) }
+		bi.Open = func(b backend.Storage) (filesystem.FileSystem, error) { return fatReadB(b, ft, size, start, 512) }
 		bi.PathOf = func(p string) string { return "/" + p }
 		bi.Unit = 512
 		if cl := fatClusterBytes(d, start, size, ft); cl > 0 {
@@ -207,7 +208,7 @@ func buildImage(kind string, tree []imgEntry, start int64, opt map[string]int64)
 			}
 		}
 		bi.D, bi.Size = d, size
-		bi.Open = func(d *simdisk.Disk) (filesystem.FileSystem, error) { return ext4.Read(d, size, start, 512) }
+		bi.Open = func(b backend.Storage) (filesystem.FileSystem, error) { return ext4.Read(b, size, start, 512) }
 		bi.PathOf = func(p string) string { return p }
 		bi.Unit = 1024
 		if opt["bs"] == 4096 {
@@ -244,7 +245,7 @@ func buildImage(kind string, tree []imgEntry, start int64, opt map[string]int64)
 			return nil, err
 		}
 		bi.D, bi.Size = d, size
-		bi.Open = func(d *simdisk.Disk) (filesystem.FileSystem, error) { return ext4.Read(d, size, start, 512) }
+		bi.Open = func(b backend.Storage) (filesystem.FileSystem, error) { return ext4.Read(b, size, start, 512) }
 		bi.PathOf = func(p string) string { return p }
 		bi.Unit = bs
 		return bi, nil
@@ -277,7 +278,7 @@ func buildImage(kind string, tree []imgEntry, start int64, opt map[string]int64)
 			return nil, err
 		}
 		bi.D, bi.Size = d, size
-		bi.Open = func(d *simdisk.Disk) (filesystem.FileSystem, error) { return iso9660.Read(d, size, start, bs) }
+		bi.Open = func(b backend.Storage) (filesystem.FileSystem, error) { return iso9660.Read(b, size, start, bs) }
 		bi.PathOf = func(p string) string { return p }
 		bi.Unit = bs
 		return bi, nil
@@ -321,7 +322,7 @@ func buildImage(kind string, tree []imgEntry, start int64, opt map[string]int64)
 			return nil, err
 		}
 		bi.D, bi.Size = d, size
-		bi.Open = func(d *simdisk.Disk) (filesystem.FileSystem, error) { return squashfs.Read(d, size, start, bs) }
+		bi.Open = func(b backend.Storage) (filesystem.FileSystem, error) { return squashfs.Read(b, size, start, bs) }
 		bi.PathOf = func(p string) string { return p }
 		bi.Unit = bs
 		return bi, nil
